@@ -11,6 +11,7 @@ import Oracle.Tokenizer
 import Oracle.Driver
 import Oracle.FSem
 import Oracle.Sem
+import Oracle.Offside
 import Oracle.Resolve
 import Oracle.Decl
 open Oracle
@@ -26,9 +27,12 @@ def handle (line : String) : String :=
     | "tok.scan" | "tok.stream" => toString (Oracle.Tokenizer.handle stream payload)
     | "c16.driver" => toString (Oracle.Driver.handle payload)
     | "c01.prog" => toString (Oracle.FSem.handle payload)
-    | "sem.prog" => toString (Oracle.SemStream.handle payload)
-    | "sem.lower" => toString (Oracle.SemStream.handleLower payload)
+    | "sem.prog" => toString (Oracle.SemStream.handle true payload)
+    | "sem.lower" => toString (Oracle.SemStream.handleLower true payload)
+    | "sem.progT" => toString (Oracle.SemStream.handle false payload)
+    | "sem.lowerT" => toString (Oracle.SemStream.handleLower false payload)
     | "c16.resolve" => toString (Oracle.ResolveStream.handle payload)
+    | "c06.block" => toString (Oracle.OffsideStream.handle payload)
     | "c03.union" => toString (Oracle.Decl.handle payload)
     | "c03.record" => toString (Oracle.Decl.handleRecord payload)
     | "c18.run" => toString (Oracle.SampleMd.handle payload)
